@@ -81,6 +81,13 @@ def gen_encoding_out():
     t += f"def preserveWhitespaceTags : List (List Nat) := [{', '.join(lean_str(x) for x in sorted(HTMLTreeBuilder.DEFAULT_PRESERVE_WHITESPACE_TAGS))}]\n"
     t += "/-- `HTMLTreeBuilder.DEFAULT_EMPTY_ELEMENT_TAGS` -/\n"
     t += f"def emptyElementTags : List (List Nat) := [{', '.join(lean_str(x) for x in sorted(HTMLTreeBuilder.DEFAULT_EMPTY_ELEMENT_TAGS))}]\n"
+    from bs4.dammit import EntitySubstitution
+    sub = fm.entity_substitution
+    t += ("/-- `HTMLFormatter.REGISTRY['minimal'].entity_substitution` is `EntitySubstitution.substitute_xml` (every `&`, `<`, `>` "
+          f"escaped); live: {getattr(sub, '__qualname__', repr(sub))} -/\n")
+    same = getattr(sub, "__func__", sub) is getattr(EntitySubstitution.substitute_xml, "__func__", EntitySubstitution.substitute_xml)
+    t += f"def minimalFormatterIsSubstituteXml : Bool := {'true' if same else 'false'}\n"
+    t += f"def minimalFormatterSubstitution : List Nat := {lean_str(getattr(sub, '__name__', '?'))}\n"
     t += "/-- the minimal HTML formatter: cdata_containing_tags, indent, void_element_close_prefix -/\n"
     t += f"def cdataContainingTags : List (List Nat) := [{', '.join(lean_str(x) for x in sorted(fm.cdata_containing_tags))}]\n"
     t += f"def formatterIndent : List Nat := {lean_str(fm.indent)}\n"
